@@ -90,4 +90,22 @@ theorem Pcap_step_progress (rest : Bytes) (r : Rec) (n : Nat) (h : nextRec rest 
   obtain ⟨h1, h2, _⟩ := nextRec_some rest r n h
   exact ⟨h1, h2⟩
 
+/-! ### review additions (rev1-C08): joint witnesses -/
+open Acra.Props.C05 in
+/-- [review] joint witness for `Pcap_items_le_bytes`: the 76-byte file of `Props/C05/Pcap.wRecs` (three records, one
+    with an empty payload) read with exactly the fuel the driver uses (`fuelFor fs` = 77) -/
+example : let fs : FS := (openFile ⟨some (fileOf wRecs), none⟩ .r).1
+    (readAll (fuelFor fs) fs).2.toOption = some wRecs ∧ fuelFor fs = 77 := by decide +kernel
+
+open Acra.Props.C05 in
+/-- [review] …and on a file that is NOT a pcap file at all (arbitrary contents: 40 bytes of 0xFF after a header-sized
+    prefix): one record with a truncated payload, then the iteration stops -/
+example : let fs : FS := (openFile ⟨some (List.replicate 64 0xFF), none⟩ .r).1
+    ((readAll (fuelFor fs) fs).2.toOption.map List.length) = some 1 := by decide +kernel
+
+-- `Pcap_step_progress`: a complete record, and a header whose payload is cut short
+example : (nextRec [1, 0, 0, 0, 2, 0, 0, 0, 3, 0, 0, 0, 3, 0, 0, 0, 7, 8, 9, 5, 5]).map (·.2) = some 19 ∧
+    (nextRec [1, 0, 0, 0, 2, 0, 0, 0, 200, 0, 0, 0, 200, 0, 0, 0, 7, 8]).map (·.2) = some 18 := by decide +kernel
+-- `Ethernet_unpack_short`
+example : ([1, 2, 3, 4, 5, 6, 7, 8, 9, 10, 11, 12, 13] : Bytes).length < 14 := by decide
 end Acra.Props.C08
